@@ -1,3 +1,244 @@
 import Driver.Common
--- stub driver for C02 (replaced when the property's model is built)
-def main (args : List String) : IO UInt32 := Driver.main' (fun _ => "bad-op") (fun _ _ => "fail bad-op") args
+import GilVerif.Model.C02
+open Driver GilVerif.Geom GilVerif.Model.C02 GilVerif.Gen.C02
+
+/-- what the harness knows about a source kind -/
+structure KInfo where
+  unit : Int            -- bits per memory unit of the printed addresses (8: bytes, 1: bits)
+  pix : Int             -- pixel size in memory units
+  xs0 : Int             -- x step of the source view in memory units
+  nch : Nat             -- channels
+  cb : Nat              -- bits of each channel used for the identity tag
+  chan : Int            -- channel size in memory units (byte kinds)
+  planar : Bool
+  chbits : List (Int × Int)   -- (bit offset inside the pixel, width) of each channel (interleaved / packed / bit-aligned)
+  homog : Bool
+  basic : Bool          -- view_is_basic: channel views re-point the iterator (else: dereference adaptor)
+  virt : Bool := false
+  deriving Inhabited
+
+def PLANE : Int := 8192
+
+def kinfo (k : String) : Option KInfo :=
+  let inter (p c : Int) (n : Nat) : Option KInfo :=
+    some { unit := 8, pix := p, xs0 := p, nch := n, cb := 8, chan := c, planar := false,
+           chbits := (List.range n).map (fun (i : Nat) => (8 * c * (i : Int), 8 * c)), homog := true, basic := true }
+  let bit (b : Int) (n : Nat) (cw : Int) : Option KInfo :=
+    some { unit := 1, pix := b, xs0 := b, nch := n, cb := cw.toNat, chan := 0, planar := false,
+           chbits := (List.range n).map (fun (i : Nat) => (cw * (i : Int), cw)), homog := false, basic := false }
+  match k with
+  | "g8" => inter 1 1 1 | "rgb8" => inter 3 1 3 | "rgba8" => inter 4 1 4 | "rgb16" => inter 6 2 3 | "rgb32f" => inter 12 4 3
+  | "s8" => (inter 3 1 3).map (fun i => { i with xs0 := 6 })
+  | "p565" => some { unit := 8, pix := 2, xs0 := 2, nch := 3, cb := 5, chan := 0, planar := false,
+                      chbits := [(0, 5), (5, 6), (11, 5)], homog := false, basic := false }
+  | "pl8" => some { unit := 8, pix := 1, xs0 := 1, nch := 3, cb := 8, chan := 1, planar := true, chbits := [(0, 8)], homog := true, basic := true }
+  | "pl16" => some { unit := 8, pix := 2, xs0 := 2, nch := 3, cb := 8, chan := 2, planar := true, chbits := [(0, 16)], homog := true, basic := true }
+  | "b1" => bit 1 1 1 | "b2" => bit 2 1 2 | "b4" => bit 4 1 4 | "b3" => bit 3 3 1 | "b6" => bit 6 3 2 | "b12" => bit 12 3 4
+  | "v" => some { unit := 1, pix := 1, xs0 := 1, nch := 1, cb := 32, chan := 0, planar := false, chbits := [], homog := false, basic := false, virt := true }
+  | _ => none
+
+inductive Op where
+  | geo (t : Xform)
+  | nth (n : Int)
+  | kth (k : Int)
+  | conv
+  deriving Inhabited
+
+def parseOp (tok : String) : Option Op :=
+  let c := (tok.take 1).toString
+  let args := ints (((tok.drop 1).toString.splitOn ",").filter (· ≠ ""))
+  match c, args with
+  | "U", some [] => some (.geo .flipUD) | "L", some [] => some (.geo .flipLR) | "T", some [] => some (.geo .transpose)
+  | "R", some [] => some (.geo .rot90cw) | "C", some [] => some (.geo .rot90ccw) | "I", some [] => some (.geo .rot180)
+  | "S", some [sx, sy] => some (.geo (.subsample sx sy))
+  | "B", some [x0, y0, w, h] => some (.geo (.sub x0 y0 w h))
+  | "N", some [n] => some (.nth n) | "K", some [k] => some (.kth k) | "X", some [] => some .conv
+  | _, _ => none
+
+def parseOps (s : String) : Option (List Op) := if s = "-" then some [] else (s.splitOn "/").mapM parseOp
+
+structure Req where
+  ki : KInfo
+  W : Int
+  H : Int
+  src : View
+  vsrc : VView
+  ops : List Op
+  wx : Int
+  wy : Int
+
+def parseReq (ws : List String) : Option Req :=
+  match ws with
+  | ["xf", k, W, H, PAD, OFF, ops, wx, wy] =>
+    match kinfo k, ints [W, H, PAD, OFF, wx, wy], parseOps ops with
+    | some ki, some [W, H, PAD, OFF, wx, wy], some ops =>
+      let base := if ki.unit = 1 ∧ !ki.virt then OFF else 0
+      some { ki := ki, W := W, H := H, ops := ops, wx := wx, wy := wy,
+             src := { base := base, xs := ki.xs0, ys := W * ki.pix * (ki.xs0 / ki.pix) + PAD, w := W, h := H },
+             vsrc := { px := PAD, py := OFF, sx := 1, sy := 1, tr := false, w := W, h := H } }
+    | _, _, _ => none
+  | _ => none
+
+/-- channel `k` of the source pixel with identity `id` -/
+def chanVal (cb : Nat) (id : Int) (k : Nat) : Int := (id * (2 * k + 1) + k) % (2 ^ cb : Int)
+
+/-- channel selection state of a derived view -/
+structure Sel where
+  chan : Option Nat := none     -- selected channel (none = whole pixel)
+  off : Int := 0                -- memory units added to every address by re-pointed channel views
+  adaptor : Bool := false       -- selected through a dereference adaptor (address = pixel address)
+  conv : Bool := false
+  deriving Inhabited
+
+def tagOf (ki : KInfo) (s : Sel) (id : Int) : Int :=
+  match s.chan with
+  | some k => chanVal ki.cb id k
+  | none =>
+    (List.range ki.nch).foldl (fun acc k =>
+      let v := chanVal ki.cb id k
+      acc + (if s.conv then 255 - v else v) * (2 ^ (k * ki.cb) : Int)) 0
+
+/-- bit intervals (start, length) of the arena occupied by the (selected channel of the) pixel at address `a` -/
+def footprint (ki : KInfo) (s : Sel) (a : Int) : List (Int × Int) :=
+  match s.chan with
+  | some k =>
+    if s.adaptor then (match ki.chbits[k]? with | some (o, w) => [(a * ki.unit + o, w)] | none => [])
+    else [(a * 8, ki.chan * 8)]
+  | none =>
+    if ki.planar then (List.range ki.nch).map (fun (k : Nat) => ((a + PLANE * (k : Int)) * 8, ki.chan * 8))
+    else [(a * ki.unit, ki.pix * ki.unit)]
+
+/-- merge adjacent intervals of a sorted list -/
+def mergeIv : List (Int × Int) → List (Int × Int)
+  | (a, n) :: (b, m) :: rest => if a + n = b then mergeIv ((a, n + m) :: rest) else (a, n) :: mergeIv ((b, m) :: rest)
+  | l => l
+termination_by l => l.length
+
+def range' (lo hi : Int) : List Int := (List.range (hi - lo + 1).toNat).map (fun i => lo + Int.ofNat i)
+def join (groups : List (List Int)) : String := " | ".intercalate (groups.map showInts)
+
+/-- identity of the source pixel stored at address `a` (memory content of the source buffer) -/
+def idAt (r : Req) (a : Int) : Int :=
+  let d := a - r.src.base
+  if r.src.ys ≤ 0 ∨ r.src.xs ≤ 0 then -1 else
+  let sy := d / r.src.ys
+  let rem := d % r.src.ys
+  let sx := rem / r.src.xs
+  if rem % r.src.xs = 0 ∧ 0 ≤ sx ∧ sx < r.W ∧ 0 ≤ sy ∧ sy < r.H then sy * r.W + sx + 1 else -1
+
+inductive Outcome where
+  | view (v : View) (s : Sel)
+  | vview (v : VView)
+  | assert (fn : String)
+  | bad
+
+/-- run the op list on the model -/
+def runOps (r : Req) : Outcome :=
+  if r.ki.virt then
+    let rec goV (ops : List Op) (v : VView) : Outcome :=
+      match ops with
+      | [] => .vview v
+      | .geo t :: rest => if xyAtAsserts (facArgs t v.w v.h) v.w v.h then .assert "xy_at" else goV rest (applyVirt t v)
+      | _ => .bad
+    goV r.ops r.vsrc
+  else
+    let rec go (ops : List Op) (v : View) (s : Sel) : Outcome :=
+      match ops with
+      | [] => .view v s
+      | .geo t :: rest => if xyAtAsserts (facArgs t v.w v.h) v.w v.h then .assert "xy_at" else go rest (applyMem t v) s
+      | .nth n :: rest =>
+        if !r.ki.homog then .bad else
+        if nth_channel_through_view = 1 ∧ call_ok 0 0 v.w v.h = 0 then .assert "operator" else
+        match s.chan with
+        | some _ => go rest v s                -- a gray view: nth_channel_view(v, 0) re-points at the same channel
+        | none =>
+          let off := if r.ki.planar then PLANE * n else r.ki.chan * n
+          go rest (nthChannel off v) { s with chan := some n.toNat, off := s.off + off }
+      | .kth k :: _ =>
+        if r.ki.basic then
+          if nth_channel_through_view = 1 ∧ call_ok 0 0 v.w v.h = 0 then .assert "operator" else
+          let off := if r.ki.planar then PLANE * k else r.ki.chan * k
+          .view (nthChannel off v) { s with chan := some k.toNat, off := s.off + off }
+        else .view v { s with chan := some k.toNat, adaptor := true }
+      | .conv :: _ => .view v { s with conv := true }
+    go r.ops r.src {}
+
+def model (line : String) : String :=
+  match parseReq (words line) with
+  | none => "bad-op"
+  | some r =>
+    match runOps r with
+    | .bad => "bad-op"
+    | .assert fn => "assert:" ++ fn
+    | .vview v =>
+      let pix := (range' 0 (v.h - 1)).flatMap fun y => (range' 0 (v.w - 1)).flatMap fun x =>
+        let p := v.pt x y; [p.2 * 4096 + p.1, p.2 * 4096 + p.1]
+      join [[v.w, v.h], pix, []]
+    | .view v s =>
+      let pix := (range' 0 (v.h - 1)).flatMap fun y => (range' 0 (v.w - 1)).flatMap fun x =>
+        let a := v.addr x y
+        [tagOf r.ki s (idAt r (a - s.off)), a]
+      let wr := if v.w > 0 ∧ v.h > 0 ∧ !s.conv then mergeIv (footprint r.ki s (v.addr r.wx r.wy)) else []
+      join [[v.w, v.h], pix, wr.flatMap (fun (a, n) => [a, n])]
+
+/-! ### judge: the documented behaviour (Spec) evaluated on the implementation's observation -/
+
+def splitGroups (ws : List String) : List (List String) :=
+  let rec go (acc : List String) (rest : List String) : List (List String) :=
+    match rest with
+    | [] => [acc.reverse]
+    | "|" :: r => acc.reverse :: go [] r
+    | x :: r => go (x :: acc) r
+  go [] ws
+
+def pairs : List Int → List (Int × Int)
+  | a :: b :: rest => (a, b) :: pairs rest
+  | _ => []
+
+def fail (s : String) : String := "fail " ++ s
+
+def geoOps (ops : List Op) : List Xform := ops.filterMap (fun o => match o with | .geo t => some t | _ => none)
+
+/-- channel selection demanded by the op list (Spec level) -/
+def selOf (ki : KInfo) (ops : List Op) : Sel :=
+  ops.foldl (fun s o =>
+    match o, s.chan with
+    | .nth n, none => { s with chan := some n.toNat, off := (if ki.planar then PLANE * n else ki.chan * n) }
+    | .kth k, none => if ki.basic then { s with chan := some k.toNat, off := (if ki.planar then PLANE * k else ki.chan * k) }
+                      else { s with chan := some k.toNat, adaptor := true }
+    | .conv, _ => { s with conv := true }
+    | _, _ => s) {}
+
+def judge (op obs : String) : String :=
+  match parseReq (words op) with
+  | none => fail "bad-op"
+  | some r =>
+    let ts := geoOps r.ops
+    if !validDims ts (r.W, r.H) then "ok" else        -- outside the factories' preconditions: not judged
+    if obs.startsWith "assert:" then fail "aborts (BOOST_ASSERT) on a valid, possibly empty view: " ++ obs else
+    match (splitGroups (words obs)).map ints with
+    | [some [w, h], some pix, some wr] =>
+      let d := dimsAll ts (r.W, r.H)
+      if (w, h) ≠ d then fail "dims: documented dimensions" else
+      if pix.length ≠ (2 * w * h).toNat then fail "shape" else
+      let s := selOf r.ki r.ops
+      let coords := (range' 0 (h - 1)).flatMap fun y => (range' 0 (w - 1)).map fun x => (x, y)
+      let srcOf (x y : Int) : Int × Int := phiDims ts (r.W, r.H) (x, y)
+      let bad := (coords.zip (pairs pix)).find? fun ((x, y), (tag, addr)) =>
+        let p := srcOf x y
+        if r.ki.virt then
+          let pt := r.vsrc.pt p.1 p.2
+          !(tag == pt.2 * 4096 + pt.1 && addr == tag)
+        else
+          !(0 ≤ p.1 && p.1 < r.W && 0 ≤ p.2 && p.2 < r.H
+            && tag == tagOf r.ki s (p.2 * r.W + p.1 + 1) && addr == r.src.addr p.1 p.2 + s.off)
+      match bad with
+      | some ((x, y), _) => fail s!"map: pixel ({x},{y}) of the derived view is not the documented source pixel"
+      | none =>
+        if r.ki.virt ∨ s.conv ∨ w ≤ 0 ∨ h ≤ 0 then (if wr.isEmpty then "ok" else fail "shallow: unexpected write") else
+        let p := srcOf r.wx r.wy
+        let expect := mergeIv (footprint r.ki s (r.src.addr p.1 p.2 + s.off))
+        if pairs wr ≠ expect then fail "shallow: a write through the derived view changes exactly the documented source pixel (channel)" else "ok"
+    | _ => fail ("not-a-value:" ++ obs.take 40)
+
+def main (args : List String) : IO UInt32 := Driver.main' model judge args
